@@ -501,8 +501,12 @@ func (p *Transformer) transformFuncBody(m llvm.Module, ctx llvm.Context, info *F
 				b.CreateStore(ret, params[0])
 				rv = b.CreateRetVoid()
 			case AttrWidthType:
+				// Re-loading the result from the address it was loaded from is only
+				// valid if nothing can have written there since: restrict the
+				// shortcut to a load that immediately precedes the ret (same
+				// problem as https://github.com/goplus/llgo/issues/1608).
 				if p.optimize {
-					if load := ret.IsALoadInst(); !load.IsNil() {
+					if load := ret.IsALoadInst(); !load.IsNil() && llvm.NextInstruction(load) == instr {
 						iptr := b.CreateBitCast(ret.Operand(0), llvm.PointerType(nft.ReturnType(), 0), "")
 						rv = b.CreateRet(b.CreateLoad(nft.ReturnType(), iptr, ""))
 						break
